@@ -110,12 +110,22 @@ class Op:
         self.id, self.fmt, self.entry, self.modpath = oid, fmt, entry, modpath
         self.ctxins, self.envins, self.helper, self.names, self.name_len, self.note = ctxins, envins, helper, list(names), name_len, note
 
+    pair = None         # (pair id, start order, 'A'|'B', the other Op) for the two-thread scenario
+
     def line(self):
+        if self.pair:
+            pid, order, who, other = self.pair
+            if who != "A":
+                return None
+            return "pair %s %d %s %s %s %s" % (pid, order, hx(self.modpath), hx(self.ctxins), hx(other.modpath), hx(other.ctxins))
         return "op %s %s %s %s %s %s" % (self.id, self.entry, hx(self.modpath), hx(self.ctxins), hx(self.envins), self.helper)
 
     def describe(self):
         return {"id": self.id, "format": self.fmt, "entry": self.entry, "module_path": self.modpath, "ctx_instrument_path": self.ctxins,
-                "env_instrument_path": self.envins, "helper": self.helper, "sample_names": self.names, "note": self.note}
+                "env_instrument_path": self.envins, "helper": self.helper, "sample_names": self.names, "note": self.note,
+                "concurrent_with": None if not self.pair else {"pair": self.pair[0], "start_order": self.pair[1], "this_thread": self.pair[2],
+                                                               "other_module": self.pair[3].modpath,
+                                                               "other_instrument_path": self.pair[3].ctxins}}
 
 
 def populate_sample_dir(d):
@@ -360,6 +370,59 @@ def build_world(ck, work, quick, rnd=0):
             if fmt in ("mfp", "flt"):
                 ops.append(Op(new_id(), fmt, rng.choice(["mem", "file", "cb"]), sd + b"/" + fname, None, None, "fail", names, nlen,
                               "directory name with path-surgery characters"))
+    # ---- two contexts in two threads: modules of the multi-file formats in two different directories, loaded
+    # concurrently; the harness forces the interleaving at the companion opens; each thread is judged against ITS module
+    pdirs = [b"pair one", b"pair-two"]
+    pmods = {}
+    benign = [b"kick", b"snare.smp", b"lead", b"x", b"Bass 1", b"KICK", b"Lead", b"SNARE.SMP"]
+    for k, pd in enumerate(pdirs):
+        d = os.path.join(wb, pd)
+        os.makedirs(d, exist_ok=True)
+        populate_sample_dir(d)
+        open(os.path.join(d, b"only in %d" % k), "wb").write(bytes(64))
+        own = [b"only in %d" % k]
+
+        def names_for(n, width):
+            pool = [x for x in benign + own if len(x) <= width]
+            return [rng.choice(pool) for _ in range(n)]
+        nm = names_for(12, 22)
+        open(os.path.join(d, b"p.mod"), "wb").write(mod_song(nm))
+        pmods[("mod", k)] = (pd + b"/p.mod", nm, 22)
+        nm = names_for(12, 12)
+        open(os.path.join(d, b"p.stm"), "wb").write(stm_song(nm))
+        pmods[("stm", k)] = (pd + b"/p.stm", nm, 12)
+        nm = names_for(1, 31)
+        open(os.path.join(d, b"p.med2"), "wb").write(med2_song(nm[0]))
+        pmods[("med2", k)] = (pd + b"/p.med2", nm, 31)
+        nm = names_for(1, 31)
+        open(os.path.join(d, b"p.med3"), "wb").write(med3_song(nm[0]))
+        pmods[("med3", k)] = (pd + b"/p.med3", nm, 31)
+        nm = names_for(3, 31)
+        open(os.path.join(d, b"p.med4"), "wb").write(med4_song(nm))
+        pmods[("med4", k)] = (pd + b"/p.med4", nm, 31)
+        open(os.path.join(d, b"mfp.pair%d" % k), "wb").write(mfpdata)
+        if k == 0:
+            open(os.path.join(d, b"smp.pair%d" % k), "wb").write(smpdata)
+        pmods[("mfp", k)] = (pd + b"/mfp.pair%d" % k, [], 0)
+        open(os.path.join(d, b"p%d.flt" % k), "wb").write(fltdata)
+        if k == 1:
+            open(os.path.join(d, b"p%d.flt.nt" % k), "wb").write(b"ST1.2 ModuleINFO" + bytes(24 * 120))
+        pmods[("flt", k)] = (pd + b"/p%d.flt" % k, [], 0)
+    combos = [("mod", "mod"), ("stm", "stm"), ("mod", "stm"), ("med4", "med4"), ("med2", "med3"), ("med3", "med2"), ("mfp", "mfp"),
+              ("flt", "flt"), ("mod", "mfp"), ("flt", "mod"), ("stm", "med4")]
+    npair = 0
+    for fa, fb in combos:
+        for order in ((0, 1, 2) if (not quick or fa == fb == "mod") else (rng.choice((0, 1, 2)),)):
+            npair += 1
+            pid = "p%d" % npair
+            (ma, na, wa), (mb2, nb, wb2) = pmods[(fa, 0)], pmods[(fb, 1)]
+            ia = insdir_rel if (fa in ("mod", "stm", "med4") and rng.random() < 0.3) else None
+            ib = pdirs[0] if (fb in ("mod", "stm", "med4") and rng.random() < 0.3) else None
+            oa = Op(pid + "A", fa, "path", ma, ia, None, "fail", na, wa, "two threads")
+            ob = Op(pid + "B", fb, "path", mb2, ib, None, "fail", nb, wb2, "two threads")
+            oa.pair = (pid, order, "A", ob)
+            ob.pair = (pid, order, "B", oa)
+            ops += [oa, ob]
     return ops + late
 
 
@@ -488,6 +551,12 @@ def parse_log(text):
         elif f[0] == "ret" and cur is not None:
             res[key] = (cur, int(f[3]))
             cur = None
+        elif f[0] == "tsys" and cur is not None:
+            cur.append(f[1:])               # [who, function, args...]
+        elif f[0] == "retp" and cur is not None:
+            res[(f[1] + f[2], "load")] = ([c[1:] for c in cur if c[0] == f[2]], int(f[3]))
+        elif f[0] == "endpair":
+            cur = None
     return res
 
 
@@ -546,9 +615,41 @@ def py_decision(op, work, min_header):
     return ("notpacked", [])
 
 
+def tsan_pairs(ck, work, ops, tmpdir, bump):
+    """thorough tier: the two-thread loads once more under ThreadSanitizer, without the parking (no artificial
+    happens-before edges): a path buffer shared between contexts shows up as a data race inside libxmp"""
+    import re
+    exe = vlib.build_harness("c10_opens", ["c10_opens.c"], variant="tsan", extra=EXTRA, libs=["-lpthread"])
+    plan = os.path.join(work, "plan-tsan.txt")
+    lines = [l for l in (o.line() for o in ops if o.pair) if l]
+    open(plan, "w").write("\n".join(lines * 3) + "\n")
+    rc, out, err = vlib.run_exe(exe, [plan, work], timeout=1800,
+                                env={"TMPDIR": tmpdir.decode(), "C10_NOBARRIER": "1",
+                                     "TSAN_OPTIONS": "halt_on_error=0:exitcode=0:second_deadlock_stack=1"})
+    bump("tsan_pair_loads", 2 * 3 * len(lines))
+    reports = err.split("WARNING: ThreadSanitizer: ")[1:]
+    seen = set()
+    for r in reports:
+        kind = r.split(" ", 2)[0] + " " + r.split(" ", 2)[1] if r.startswith("data race") else r.split("(")[0].strip()
+        frames = re.findall(r"#\d+ (\w+) [^\n]*?/src/", r)
+        frames = [f for f in frames if not f.startswith("__")]
+        where = frames[0] if frames else "?"
+        if not frames:
+            continue            # not inside libxmp
+        sig = "tsan:%s@%s" % (kind.replace(" ", "-"), where)
+        if sig in seen:
+            continue
+        seen.add(sig)
+        ck.violation(sig, {"round": 0, "how": "harness c10_opens built with -fsanitize=thread, env C10_NOBARRIER=1, plan = the pair lines",
+                           "plan": lines[:6], "report": r[:3000]},
+                     "ThreadSanitizer: %s in %s while two contexts load song-only / multi-file modules concurrently" % (kind, where))
+    if rc not in (0,) and not reports:
+        ck.note("tsan_run_rc", rc)
+
+
 def run_opens(ck, only_round=None, only_op=None, verbose=False):
     quick = ck.tier == "quick"
-    exe = vlib.build_harness("c10_opens", ["c10_opens.c"], extra=EXTRA)
+    exe = vlib.build_harness("c10_opens", ["c10_opens.c"], extra=EXTRA, libs=["-lpthread"])
     rounds = 1 if quick else 16
     stats = {}
 
@@ -562,16 +663,23 @@ def run_opens(ck, only_round=None, only_op=None, verbose=False):
         try:
             ops = build_world(ck, work, quick, rnd)
             if only_op is not None:
-                ops = [o for o in ops if o.id == only_op]
+                sel = [o for o in ops if o.id == only_op]
+                ops = sel + [o.pair[3] for o in sel if o.pair]
+                ops.sort(key=lambda o: o.id)
             plan = os.path.join(work, "plan.txt")
-            open(plan, "w").write("\n".join(o.line() for o in ops) + "\n")
+            open(plan, "w").write("\n".join(l for l in (o.line() for o in ops) if l) + "\n")
             tmpdir = os.path.join(work, "tmp").encode()
             rc, out, err = vlib.run_exe(exe, [plan, work], timeout=1800, env={"TMPDIR": tmpdir.decode()})
             log = parse_log(out.decode("latin-1"))
             if verbose:
                 for l in out.decode("latin-1").splitlines():
                     f = l.split(" ")
-                    print("   " + (" ".join([f[0], f[1]] + [repr(unhex(a))[:200] for a in f[2:]]) if f[0] == "sys" else l))
+                    if f[0] == "sys":
+                        print("   " + " ".join([f[0], f[1]] + [repr(unhex(a))[:200] for a in f[2:]]))
+                    elif f[0] == "tsys":
+                        print("   " + " ".join(f[:3] + [repr(unhex(a))[:200] for a in f[3:]]))
+                    else:
+                        print("   " + l)
                 print(err[-3000:])
             if rc != 0:
                 sig = vlib.sanitizer_signature(err)
@@ -620,7 +728,13 @@ def run_opens(ck, only_round=None, only_op=None, verbose=False):
                     bump("helper_spawns", len(obs["execs"]))
                     if ret == 0:
                         bump("loads_ok")
+                    if op.pair:
+                        bump("thread_pair_loads")
+                        bump("thread_pair_companion_opens", len(obs["opened"]))
                     for sig, what in viol:
+                        if op.pair:
+                            sig = "thread:" + sig
+                            what += " -- while another thread loaded %r (start order %d)" % (op.pair[3].modpath, op.pair[1])
                         what = what if len(what) < 700 else what[:340] + " ... " + what[-340:]
                         ck.violation(sig, {"round": rnd, "op": op.describe(), "phase": phase, "return": ret,
                                            "calls": [[c[0]] + [unhex(a) for a in c[1:]] for c in calls][:60],
@@ -661,6 +775,8 @@ def run_opens(ck, only_round=None, only_op=None, verbose=False):
                     if len(ck.cov["samples"]) < 6 and beyond and phase == "load":
                         ck.sample({"format": op.fmt, "entry": op.entry, "module": repr(op.modpath), "return": ret,
                                    "os_calls": ["%s %r" % (c[0], unhex(c[1])) for c in calls][:8]}, limit=6)
+            if (not quick or os.environ.get("C10_TSAN")) and rnd == 0 and only_op is None:
+                tsan_pairs(ck, work, ops, tmpdir, bump)
             if os.path.exists(os.path.join(work, "PWNED")):
                 ck.violation("shell:metacharacters-executed", {"work": work}, "a file named PWNED appeared: a shell interpreted the module path")
         finally:
@@ -685,7 +801,9 @@ def replay(ck, rp):
     ck2.min_header = gen_open_sites.generate()["min_header"]
     op = r.get("op", {}).get("id") if isinstance(r.get("op"), dict) else None
     print("replaying C10 load case: seed=%s tier=%s round=%s op=%s" % (rp.get("seed"), rp.get("tier"), r["round"], op or "(whole plan)"))
-    run_opens(ck2, only_round=r["round"], only_op=op, verbose=True)
+    if str(rp.get("signature", "")).startswith("tsan:"):
+        os.environ["C10_TSAN"] = "1"        # the ThreadSanitizer pass over the two-thread loads
+    run_opens(ck2, only_round=r["round"], only_op=op, verbose=not str(rp.get("signature", "")).startswith("tsan:"))
     bad = [v for v in ck2.violations] + [{"signature": k} for k in ck2.known_hits]
     for v in ck2.violations:
         print("VIOLATION property=C10 replay=%s   [%s] %s" % (v["replay"], v["signature"], v["what"][:300]))
